@@ -3,15 +3,26 @@
 //
 //   - a remedy / diagnosis selected for (method, URL) was declared for that method
 //     on a pattern that matches the URL (literal = equal part of the same kind,
-//     {param} = exactly one part of the same kind, trailing * = any rest);
+//     {param} = exactly one part of the same kind, trailing * = nothing or a
+//     rest that starts with a part of the kind the * was written in: "a.com/*"
+//     covers a.com, a.com/x, a.com/x/y, not a.com.evil.org/x; "a.*" covers a,
+//     a.b, a.b/x, not a/x);
 //   - the reported normalised URL is a declared pattern that matches the request;
 //   - the path parameters are the request's parts at the parameter positions;
-//   - literal over parameter at the first step where the selected pattern
-//     differs from another matching declared pattern; an exact (non-wildcard)
-//     matching pattern that no literal sibling shadows wins over a wildcard;
+//   - the most specific declared pattern wins (literal > parameter > wildcard,
+//     compared left to right; an exact pattern over a wildcard standing for
+//     nothing; hence a deeper wildcard over an outer one): the selected pattern
+//     is at least as specific as every declared pattern that matches the URL,
+//     and when a declared pattern matches, one is selected;
 //   - same outcome for every order of the same declarations.
 //
-// Nothing is demanded when nothing is selected (the property is an only-if).
+// Known deviations of the implementation are classified by their own
+// signatures (known findings): no-backtracking:lookup (the more specific
+// matching pattern has a parameter step shadowed by a declared literal sibling
+// carrying the request part: the descent entered the literal branch and does
+// not come back), brace-part:lookup (a request part spelled "{..}" is taken
+// for a parameter reference), order:plugin-sequence (two declarations of one
+// method and URL are merged in declaration order), hostpath-clash:insert.
 package main
 
 import (
@@ -81,10 +92,11 @@ func mPattern(u string) (p []mstep, valid bool) {
 	return p, valid
 }
 
-func mMatches(p []mstep, u []mpart) bool {
+// kind-aware matcher (the property text); lax = the wildcard stands for parts of any kind
+func mMatchesGen(p []mstep, u []mpart, lax bool) bool {
 	for i, s := range p {
 		if s.kind == kWild {
-			return i == len(p)-1
+			return i == len(p)-1 && (lax || i >= len(u) || u[i].host == s.host)
 		}
 		if i >= len(u) || u[i].host != s.host {
 			return false
@@ -94,6 +106,52 @@ func mMatches(p []mstep, u []mpart) bool {
 		}
 	}
 	return len(p) == len(u)
+}
+
+func mMatches(p []mstep, u []mpart) bool    { return mMatchesGen(p, u, false) }
+func mMatchesLax(p []mstep, u []mpart) bool { return mMatchesGen(p, u, true) }
+
+// literal > parameter > wildcard
+func rank(s mstep) int { return 3 - s.kind }
+
+// moreSpecific: r is strictly more specific than sel (both match one request):
+// at the first step where they differ r has the higher rank, or r has ended
+// (exact) where sel continues with its wildcard.  x = that step.
+func moreSpecific(r, sel []mstep) (bool, int) {
+	x := 0
+	for x < len(r) && x < len(sel) && sameStep(r[x], sel[x]) {
+		x++
+	}
+	switch {
+	case x == len(r) && x == len(sel):
+		return false, x
+	case x == len(r):
+		return sel[x].kind == kWild, x
+	case x == len(sel):
+		return false, x
+	}
+	return rank(r[x]) > rank(sel[x]), x
+}
+
+func hasBracePart(u []mpart) bool {
+	for _, x := range u {
+		if isBrace(x.v) {
+			return true
+		}
+	}
+	return false
+}
+
+// duplicateEndpoint: two declarations of one method and one pattern
+func duplicateEndpoint(ds []declInfo) bool {
+	for i := range ds {
+		for j := i + 1; j < len(ds); j++ {
+			if ds[i].valid && ds[j].valid && ds[i].d.Method == ds[j].d.Method && samePattern(ds[i].pat, ds[j].pat) {
+				return true
+			}
+		}
+	}
+	return false
 }
 
 func sameStep(a, b mstep) bool {
@@ -213,7 +271,11 @@ func monitorCase(k *Case) []c.Hit {
 					continue
 				}
 				d := ds[i]
-				if d.d.Method != q.Method || !d.valid || !mMatches(d.pat, u) {
+				if d.d.Method == q.Method && d.valid && !mMatches(d.pat, u) && mMatchesLax(d.pat, u) {
+					add("unsound:wildcard-kind",
+						fmt.Sprintf("%s %s (declared for %s %s) applies only to requests matching that URL: the wildcard stands for parts of its own kind (host label / path segment)", what, nm(s.Name), d.d.Method, d.d.URL),
+						fmt.Sprintf("selected for %s %s", q.Method, q.URL), q)
+				} else if d.d.Method != q.Method || !d.valid || !mMatches(d.pat, u) {
 					add("unsound:policy-leak",
 						fmt.Sprintf("%s %s (declared for %s %s) applies only to requests of that method matching that URL", what, nm(s.Name), d.d.Method, d.d.URL),
 						fmt.Sprintf("selected for %s %s", q.Method, q.URL), q)
@@ -229,7 +291,39 @@ func monitorCase(k *Case) []c.Hit {
 			add("scoped-context", "endpoint-scoped plugins carry the request method and the looked-up normalised URL / path parameters",
 				"they differ", q)
 		}
+		brace := hasBracePart(u)
+		// the declared patterns that match the request
+		var matching []*declInfo
+		for i := range ds {
+			if ds[i].valid && mMatches(ds[i].pat, u) {
+				matching = append(matching, &ds[i])
+			}
+		}
+		// classify a matching pattern r that the selection is below (or nothing selected)
+		// (a "{..}" request part only explains that NOTHING is selected: the
+		// descent gives up there; it never explains a less specific selection)
+		classify := func(r *declInfo, generic string, nothingSelected bool) string {
+			switch {
+			case nothingSelected && brace:
+				return "brace-part:lookup"
+			case !unshadowed(r.pat, u, ds):
+				return "no-backtracking:lookup"
+			}
+			return generic
+		}
 		if !o.HasValue {
+			// completeness: a declared pattern matches, so one is selected
+			sig, by := "", (*declInfo)(nil)
+			for _, r := range matching {
+				c := classify(r, "specificity:matching-pattern-not-selected", true)
+				if sig == "" || (c == "specificity:matching-pattern-not-selected" && sig != c) {
+					sig, by = c, r
+				}
+			}
+			if by != nil {
+				add(sig, fmt.Sprintf("%q matches %s: the most specific matching declared pattern is selected", by.d.URL, q.URL),
+					fmt.Sprintf("match=%v, no declared pattern reported", o.Match), q)
+			}
 			continue
 		}
 		// normalised URL = a declared pattern matching the request
@@ -247,18 +341,16 @@ func monitorCase(k *Case) []c.Hit {
 			continue
 		}
 		if !mMatches(sel.pat, u) {
-			add("normalised-url:not-matching", "the normalised URL matches the request",
+			sig := "normalised-url:not-matching"
+			if mMatchesLax(sel.pat, u) {
+				sig = "normalised-url:wildcard-kind"
+			}
+			add(sig, "the normalised URL matches the request",
 				fmt.Sprintf("%q for %s", o.Norm, q.URL), q)
 			continue
 		}
 		// path parameters = request parts at the parameter positions
-		brace := false
-		for _, x := range u {
-			if isBrace(x.v) {
-				brace = true
-			}
-		}
-		if !brace {
+		{
 			want := map[string]string{}
 			for i, s := range sel.pat {
 				if s.kind == kParam {
@@ -270,32 +362,42 @@ func monitorCase(k *Case) []c.Hit {
 				got[p[0]] = p[1]
 			}
 			if !sameParams(want, got) {
-				add("path-params", fmt.Sprintf("path parameters of %q for %s are %v", o.Norm, q.URL, want),
+				sig := "path-params"
+				if brace {
+					sig = "brace-part:lookup"
+				}
+				add(sig, fmt.Sprintf("path parameters of %q for %s are %v", o.Norm, q.URL, want),
 					fmt.Sprintf("%v", got), q)
 			}
 		}
-		// specificity
-		for i := range ds {
-			r := &ds[i]
-			if !r.valid || samePattern(r.pat, sel.pat) || !mMatches(r.pat, u) {
+		// specificity: the selected pattern is at least as specific as every
+		// declared pattern that matches the request
+		seen := map[string]bool{}
+		for _, r := range matching {
+			if samePattern(r.pat, sel.pat) {
 				continue
 			}
-			x := 0
-			for x < len(r.pat) && x < len(sel.pat) && sameStep(r.pat[x], sel.pat[x]) {
-				x++
+			more, x := moreSpecific(r.pat, sel.pat)
+			if !more {
+				continue
 			}
-			if x < len(r.pat) && x < len(sel.pat) && sel.pat[x].kind == kParam && r.pat[x].kind == kLit {
-				add("specificity:literal-over-parameter",
-					fmt.Sprintf("%q (literal at step %d) wins over %q for %s", r.d.URL, x, sel.d.URL, q.URL),
-					fmt.Sprintf("normalised URL %q", o.Norm), q)
+			sig := ""
+			switch {
+			case x < len(r.pat) && sel.pat[x].kind == kParam && r.pat[x].kind == kLit:
+				// literal over parameter at the first differing step: the
+				// descent itself prefers the literal child there
+				sig = "specificity:literal-over-parameter"
+			case r.pat[len(r.pat)-1].kind == kWild:
+				sig = classify(r, "specificity:deeper-wildcard-over-outer", false)
+			default:
+				sig = classify(r, "specificity:exact-over-wildcard", false)
 			}
-			selWild := sel.pat[len(sel.pat)-1].kind == kWild
-			rWild := r.pat[len(r.pat)-1].kind == kWild
-			if selWild && !rWild && unshadowed(r.pat, u, ds) {
-				add("specificity:exact-over-wildcard",
-					fmt.Sprintf("%q wins over the wildcard %q for %s", r.d.URL, sel.d.URL, q.URL),
-					fmt.Sprintf("normalised URL %q", o.Norm), q)
+			if seen[sig] {
+				continue
 			}
+			seen[sig] = true
+			add(sig, fmt.Sprintf("%q is more specific than %q (step %d) and matches %s", r.d.URL, sel.d.URL, x, q.URL),
+				fmt.Sprintf("normalised URL %q", o.Norm), q)
 		}
 	}
 	return hits
@@ -315,9 +417,8 @@ func outcome(q Req) string {
 		o.HasValue, o.Norm, o.Params, names(o.Rems), names(o.Diags), o.Should)
 }
 
-// monitorOrder: the same declarations in another order give the same outcome
-// (plugins selected are compared as sets: their relative order is not part of
-// the property).
+// monitorOrder: the same declarations in another order give the same outcome:
+// the same plugins selected (as sets), and the same sequence of remedies.
 func monitorOrder(ref, k *Case) []c.Hit {
 	_, clash := infos(k)
 	sig := func(s string) string {
@@ -337,6 +438,8 @@ func monitorOrder(ref, k *Case) []c.Hit {
 	if !k.Accepted {
 		return nil
 	}
+	dsi, _ := infos(k)
+	dup := duplicateEndpoint(dsi)
 	for i := range k.Reqs {
 		a, b := outcome(ref.Reqs[i]), outcome(k.Reqs[i])
 		if a != b {
@@ -348,5 +451,30 @@ func monitorOrder(ref, k *Case) []c.Hit {
 				Observed: b, Case: kk}}
 		}
 	}
+	// the selected remedies run in list order (each sees the request as the
+	// previous ones left it): their sequence is part of the outcome
+	for i := range k.Reqs {
+		a, b := remedySeq(ref.Reqs[i]), remedySeq(k.Reqs[i])
+		if a != b {
+			kk := *k
+			kk.Reqs = []Req{k.Reqs[i]}
+			kk.OtherOrder = ref.Decls
+			s := "order:selection"
+			if dup {
+				s = "order:plugin-sequence"
+			}
+			return []c.Hit{{Signature: sig(s),
+				Demanded: fmt.Sprintf("%s %s: remedies run in the sequence %s (as in the other order)", k.Reqs[i].Method, k.Reqs[i].URL, a),
+				Observed: b, Case: kk}}
+		}
+	}
 	return nil
+}
+
+func remedySeq(q Req) string {
+	var x []string
+	for _, e := range q.Obs.Rems {
+		x = append(x, fmt.Sprintf("%v:%d", e.Endpoint, e.Name))
+	}
+	return strings.Join(x, ",")
 }
